@@ -37,6 +37,11 @@ def Statement : Prop :=
     (limit < out.length + buf.length →
       ∃ s', writeAll ⟨out, limit, sched⟩ buf fuel = (false, ⟨out ++ buf.take (limit - out.length), limit, s'⟩)))
 
+/-- `serialize_into` is a sequence of `write_all` calls stopped at the first error: however the bytes are cut into
+    calls and whatever the schedule, it returns `Ok` iff everything fits below the failure point (having written exactly
+    the bytes), and otherwise `Err` having written exactly the first `limit` bytes — never a panic (the model is total) -/
+theorem serialize_into_failing_writer : type_of% (@writeChunks_spec) := @writeChunks_spec
+
 theorem holds : Statement :=
   ⟨fun x k h hk => Good.strict_prefix_fails BV.codec_wf_good x h k hk,
    fun x k h hk => Good.strict_prefix_fails CV.codec_good x h k hk,
